@@ -1390,6 +1390,8 @@ class Interp:
         return ("lam", i, ax[0], self.elem(t, i))
 
     def arith(self, op, a, b):
+        if op == "MatMult":
+            return self.dot(a, b)  # `a @ b` contracts the shared axis; it is not a pointwise operator to be lifted over it
         if op == "Add" and a[0] == "tuple" and b[0] == "tuple":
             return ("tuple", a[1] + b[1])  # list / tuple concatenation
         if op == "Mult" and ((a[0] == "tuple" and is_num(b)) or (b[0] == "tuple" and is_num(a))):
